@@ -12,7 +12,7 @@ struct Subject {
 	std::string cls;
 	std::function<bool()> check;
 	std::vector<std::pair<std::string, std::function<bool(mpz_srcptr)> > > elems;
-	bool elem_range_only;                       // PedersenCommitmentScheme::TestMembership: documented as 0 < c < p only
+	bool elem_range_only;                       // an element check that is documented as the range test 0 < c < p only (none at present)
 	std::vector<PSet> sets;                     // everything CheckGroup() is meant to validate
 	std::vector<std::pair<std::string, mpz_ptr> > unspec;   // public group members CheckGroup() does not look at by design
 	std::function<void()> destroy;
@@ -119,7 +119,7 @@ static inline Subject *mk_pedcom(size_t n, unsigned long F, unsigned long G, boo
 	s->cls = cls ? cls : (publiccoin ? "pedersen_com/publiccoin" : "pedersen_com");
 	s->check = [o]() { return o->CheckGroup(); };
 	s->elems.push_back(std::make_pair("TestMembership", [o](mpz_srcptr a) { return o->TestMembership(a); }));
-	s->elem_range_only = true;
+	s->elem_range_only = false;     // since /repo 4a28817 TestMembership is the full membership test (range and order q)
 	s->sets.push_back(pset_com("", o, F, G));
 	s->destroy = [o]() { delete o; };
 	std::string c = s->cls;
